@@ -276,7 +276,7 @@ section ReaderOperational
 open Hts Hts.Model.Bgzf Hts.Spec.Flat
 
 /-- **Every history, every fault pattern.**  Tracking the logical position through the bytes returned and the
-*successful* seeks (`nextPos`), every operation is `StepOK`: a Read/ReadByte returns bytes of the flat copy at
+*successful* seeks (`nextPos`), every operation is `FaultStepOK`: a Read/ReadByte returns bytes of the flat copy at
 that position (never other bytes), at most as many as asked for; a returned error is latched and every later
 Read/ReadByte returns nothing and the same error until a Seek succeeds (sticky, as `bg.err`); a Seek either
 succeeds or latches the error it returns; `io.EOF` from a Read outside Blocked mode means the position is the
